@@ -40,7 +40,8 @@ func ResolveSymbolicLink(path string) (string, error) {
 		// no symbolic link detected
 		return path, nil
 	}
-	return strings.Replace(path, part, sym, 1), nil
+	// components after the converted section may be symbolic links too
+	return ResolveSymbolicLink(strings.Replace(path, part, sym, 1))
 
 }
 
